@@ -70,6 +70,25 @@ def ops_for(hub, U, letters, rng, regime, tier):
             x.cumsum(l)
         except Exception:
             pass
+    # chains on one object: use the operand, derive a result whose dimension positions differ, then address the result
+    xr = x.new()
+    try:
+        xr.cumsum(full[-1])
+        xr[{full[0]: U[full[0]].items[0]}]
+    except Exception:
+        pass
+    for derived in (lambda: xr.sum_to(full[::-1]), lambda: xr.sum_over((full[0],)), lambda: xr + xr.sum_over((full[0],)), lambda: xr.sum_to(full[1:] + full[:1])):
+        try:
+            y = derived()
+        except Exception:
+            continue
+        yl = tuple(y.dims.letters)
+        for f in ([lambda: y.cumsum(yl[0]), lambda: y.cumsum(yl[-1]), lambda: y[{yl[-1]: U[yl[-1]].items[0]}], lambda: y[{yl[0]: U[yl[0]].items[-1]}],
+                   lambda: y.copy().__setitem__({yl[0]: U[yl[0]].items[0]}, 1.5), lambda: y.sum_to(yl[::-1])]):
+            try:
+                f()
+            except Exception:
+                pass
     sub = gen.Fresh(hub, fd.FlodymArray(dims=gen.dimset(fd, U, full[1:][::-1]), values=gen.values_one(regime, rng, gen.shape_of(U, full[1:][::-1]), layout=True)))
     for tgt in (full, full[::-1], full[1:] + full[:1]):
         try:
@@ -231,7 +250,7 @@ def plan(tier):
 def one(rec, hub, seed, tier, ci, regime):
     fd = hub.fd
     letters, pat = plan(tier)[ci]
-    U = gen.universe(fd, dict(zip(letters, pat)))
+    U = gen.universe(fd, dict(zip(letters, pat)), rng=case_nprng(seed, "c04.universe", 0, f"{ci}.{regime}"))
     rng = case_nprng(seed, "c04.ops", 0, f"{ci}.{regime}")
     ops_for(hub, U, letters, rng, regime, tier)
     if regime == "tagged":
